@@ -34,7 +34,8 @@ REACH = ['resolved-in-own-namespace', 'graph=declared', 'closures', 'cycle-or-da
 
 
 def bounds(tier):
-    return {'sym': {'tasks_in_map': 3, 'namespace_depth': '0-2', 'names': 'unbounded strings without ":"'},
+    return {'task_orders': 'first 6 permutations' if tier == 'quick' else 'all permutations (up to 120)',
+            'sym': {'tasks_in_map': 3, 'namespace_depth': '0-2' if tier == 'quick' else '0-3', 'names': 'unbounded strings without ":"'},
             'conc': {'pipelines': sorted(PIPES), 'mountings': MOUNTS, 'cycle_lengths': [1, 2, 3]}}
 
 
@@ -95,7 +96,7 @@ MOUNTS = ['root', 'train', 'a::b', 'two:train,tr', 'two:n,nn', 'nested']
 
 
 def cases(tier):
-    out = [('sym', form, depth) for form in ('name', 'class', 'qualified') for depth in (0, 1, 2)]
+    out = [('sym', form, depth) for form in ('name', 'class', 'qualified') for depth in ((0, 1, 2) if tier == 'quick' else (0, 1, 2, 3))]
     for p in PIPES:
         for m in MOUNTS:
             out.append(('conc', p, m))
@@ -104,7 +105,11 @@ def cases(tier):
     return out
 
 
+TIER = ['quick']
+
+
 def make_harness(case, tier):
+    TIER[0] = tier or 'quick'
     if case[0] == 'sym':
         return sym(case)
     if case[0] == 'conc':
@@ -212,7 +217,7 @@ def conc(case):
         fs = keylib.fresh_fs()
         n = len(spec)
         perms = list(itertools.permutations(range(n)))
-        order = perms[ctx.choice('order', min(len(perms), 6))]
+        order = perms[ctx.choice('order', min(len(perms), 6 if TIER[0] == 'quick' else 120))]
         cfg, mounts = mount(fs, spec, VALS[pname], how, list(order))
         info = {'pipeline': pname, 'mounting': how, 'task_order': list(order)}
         try:
